@@ -541,13 +541,17 @@ def _corpus():
             # a matching Case branch WITHOUT statements does nothing (the default must not run for it), comb and sync
             self.e = Signal(4); self.f = Signal(4, reset=5)
             self.comb += Case(self.sel, {0: [], 1: self.e.eq(self.a), "default": self.e.eq(9)})
+            # keys outside the range of the 2-bit selector (5 = 0b101, 8 = 0b1000) never match - neither in the simulator nor, at their own width, in Verilog
+            self.e2 = Signal(4); self.f2 = Signal(4)
+            self.comb += Case(self.sel, {5: self.e2.eq(1), 8: self.e2.eq(2), 2: self.e2.eq(3), "default": self.e2.eq(self.a)})
+            self.sync += Case(self.sel, {4: self.f2.eq(7), 1: self.f2.eq(self.a)})
             # a comb target assigned piecewise: an unconditional slice plus conditional assignments to OTHER bits (those fall back to the
             # reset value when the condition is false), a reset value that is not zero, and a target only ever assigned conditionally
             self.g = Signal(6, reset=0b101010); self.k = Signal(4, reset=0b0110); self.c2 = Signal()
             self.comb += [self.g[0:2].eq(self.a[0:2]), If(self.c2, self.g[2:4].eq(self.a[2:4])), If(self.sel == 2, self.g[5].eq(self.a[0]))]
             self.comb += If(self.c2 & self.sel[0], self.k.eq(self.a))
             self.sync += Case(self.sel, {2: [], 3: self.f.eq(self.a), "default": self.f.eq(self.f + 1)})
-    C.append(("statement-nests", lambda: (lambda d: (d, {d.a, d.b, d.sel, d.o, d.p, d.q, d.r0, d.r1, d.e, d.f, d.g, d.k, d.c2}))(Stmts())))
+    C.append(("statement-nests", lambda: (lambda d: (d, {d.a, d.b, d.sel, d.o, d.p, d.q, d.r0, d.r1, d.e, d.f, d.g, d.k, d.c2, d.e2, d.f2}))(Stmts())))
     # second batch: more of the real LiteX library (interconnect, bridges, packet, peripherals)
     from litex.soc.interconnect import packet, axi, ahb
     from litex.soc.cores import timer as _timer, uart as _uart, spi as _spi
@@ -724,6 +728,7 @@ def _gen_program(rng):
             else:
                 sel = rng.choice([x for x in readable if not x.signed] or readable); n = min(1 << len(sel), 4)
                 keys = rng.sample(range(1 << len(sel)), rng.randint(1, n)) if not sel.signed else [0]
+                if not sel.signed and rng.random() < 0.4: keys.append((1 << len(sel)) + rng.randrange(1 << len(sel)))      # a key the selector can never take: must never match (also not after truncation)
                 cases_ = {k_: (stmts(tgts, depth - 1, sync) if rng.random() < 0.85 else []) for k_ in keys}
                 if rng.random() < 0.6: cases_["default"] = stmts(tgts, depth - 1, sync)
                 out.append(Case(sel, cases_))
@@ -780,13 +785,89 @@ def c_case_sim():
     out.append(res("ens.case-test-truncation[Case(~x), Case(-x), If(x-3); all inputs]", "ensures", PROVED if rows and not bad else VIOLATED, 0, "real simulator vs vlogsem of the real text (exhaustive, 64 inputs)", witness=bad[:1], evaluations=len(rows)))
     return dict(results=out, functions=["litex.gen.sim.core.Evaluator.execute (Case/If)", "litex.gen.fhdl.verilog._generate_node"])
 
+def c_multiclock_reference():
+    """the reference semantics for SEVERAL clock domains (Simulator.run / _commit_and_comb_propagate: every domain whose clock rises in an instant
+    executes on the pre-edge state, then ONE commit): the real simulator is run on two-domain designs with coincident and non-coincident edges and
+    compared, observation by observation, with the per-domain next-state functions of fhdl2smt applied to all rising domains simultaneously (the
+    semantics the emitted Verilog is proved against in the multi-clock designs).  Executed (bounded: clock configurations x 60 edges)."""
+    from litex.gen.sim import run_simulation
+    from litex.gen.sim.core import TimeManager
+    class D(Module):
+        def __init__(self):
+            self.x = Signal(4, reset=1); self.y = Signal(4, reset=2); self.ca = Signal(5); self.cb = Signal(5); self.z = Signal(5)
+            self.sync.a += [self.x.eq(self.y), self.ca.eq(self.ca + 1)]
+            self.sync.b += [self.y.eq(self.x), self.cb.eq(self.cb + self.ca[0]), If(self.x[0], self.z.eq(self.z + self.ca))]
+    out = []; bad = []; nobs = 0
+    for clocks in ({"a": 10, "b": 10}, {"a": 10, "b": (20, 5)}, {"a": 10, "b": 20}, {"a": 6, "b": (10, 3)}, {"a": (14, 7), "b": 14}, {"a": 4, "b": 6}):
+        d = D(); regs = [d.x, d.y, d.ca, d.cb, d.z]
+        f0 = d.get_fragment()
+        for n_ in ("a", "b"): f0.clock_domains.append(ClockDomain(n_, reset_less=True))
+        ts = TS(copy_fragment(f0), inputs=[])
+        # real simulator: a generator per domain records the (pre-edge) register values it sees at each of its ticks
+        logs = {"a": [], "b": []}
+        def mk(cdn, n_ticks):
+            def g():
+                for _ in range(n_ticks):
+                    vals = []
+                    for r_ in regs: vals.append((yield r_))
+                    logs[cdn].append(tuple(vals)); yield
+            return g()
+        run_simulation(copy_fragment(f0), {"a": mk("a", 40), "b": mk("b", 40)}, clocks=dict(clocks))
+        # reference: the same edge schedule (real TimeManager), all rising domains step on the pre-edge state
+        tm = TimeManager(dict(clocks)); st = {r_: r_.reset.value for r_ in regs}; ref = {"a": [], "b": []}
+        def step(st, doms):
+            sub = [(ts.var[r_], z3.BitVecVal(st[r_], r_.nbits)) for r_ in regs]; new = dict(st)
+            for cdn in doms:
+                for r_, e in ts.next[cdn].items():
+                    if r_ in st: new[r_] = z3.simplify(z3.substitute(e, *sub)).as_long()
+            return new
+        while len(ref["a"]) < 40 or len(ref["b"]) < 40:
+            _, rising, _ = tm.tick()
+            for cdn in sorted(rising): ref[cdn].append(tuple(st[r_] for r_ in regs))
+            if rising: st = step(st, sorted(rising))
+        for cdn in ("a", "b"):
+            n = min(len(logs[cdn]), len(ref[cdn]), 40); nobs += n
+            for k in range(n):
+                if logs[cdn][k] != ref[cdn][k]:
+                    bad.append(dict(clocks=str(clocks), domain=cdn, tick=k, simulator=logs[cdn][k], reference=ref[cdn][k])); break
+    out.append(res("ens.multiclock-reference[simultaneous edges read the pre-edge state; 6 clock configurations x 80 observations]", "bounded", BOUNDED_OK if nobs and not bad else VIOLATED, 0,
+                   "real litex.gen.sim run vs per-domain next-state functions (fhdl2smt) on the real TimeManager schedule", evaluations=nobs, witness=bad[:2]))
+    return dict(results=out, functions=["litex.gen.sim.core.Simulator.run", "litex.gen.sim.core.Simulator._commit_and_comb_propagate", "litex.gen.sim.core.Evaluator.commit"], samples=[dict(bounded="multi-clock reference semantics", observations=nobs)])
+
+def c_case_signed_selector():
+    """Case on a SIGNED selector with a key that is not representable in the selector's type (6 on a 3-bit signed selector): the simulator compares
+    integers (-2 != 6, never matches), the Verilog `case` compares bit patterns in an unsigned context (3'b110 == 3'd6 matches when sel == -2).
+    Listed finding; the same design with representable keys only must be proved equal."""
+    class D(Module):
+        def __init__(self, keys):
+            self.sel = Signal((3, True)); self.y = Signal(4)
+            self.comb += Case(self.sel, {k: self.y.eq(i + 1) for i, k in enumerate(keys)} | {"default": self.y.eq(9)})
+    out = []
+    d = D([0, 1, 3]); r_ok = tv_design("case-signed-selector(representable keys 0,1,3)", d, {d.sel, d.y})
+    out += r_ok
+    d = D([0, 6]); r_bad = [x for x in tv_design("case-signed-selector(key 6 on a 3-bit signed selector)", d, {d.sel, d.y}) if x["name"].startswith("tv.step")]
+    differs = any(x["status"] != PROVED for x in r_bad)
+    # native half of the witness: the real simulator never takes the branch of key 6
+    from litex.gen.sim import run_simulation
+    d2 = D([0, 6]); seen = []
+    def gen():
+        for v in range(-4, 4):
+            yield d2.sel.eq(v); yield
+            seen.append((v, (yield d2.y)))
+    run_simulation(d2, gen())
+    txt = convert(D([0, 6]), ios=set(), name="top") if False else None
+    out.append(res("finding.case-key-not-representable-in-signed-selector", "finding-witness", VIOLATED if differs and dict(seen).get(-2) == 9 else PROVED, 0, "vlogsem of the real text vs fhdl2smt; real simulator run",
+                   witness=dict(simulator=seen, verilog="case (sel) 3'd6 matches sel == -2 (bit pattern 110)"),
+                   what="Case on a signed selector with a key outside the selector's signed range (6 on 3 bits): never taken in simulation, taken for sel == -2 by the emitted Verilog (unsigned comparison of bit patterns)"))
+    return dict(results=out, functions=["litex.gen.fhdl.verilog._generate_node (Case)", "litex.gen.sim.core.Evaluator.execute (Case)"], samples=[dict(program="Case on a signed selector")])
+
 def cases(tier):
     names = list(TEMPLATES)
     cs = [VCase(f"expr[{n}]", c_templates, [n], timeout=900) for n in names]
     cs += [VCase(f"expr-finding[{n}]", c_templates, [n], True, timeout=900) for n in FINDING_TEMPLATES]
     cs += [VCase(f"design[{n}]", c_design, n, timeout=900) for n, _ in _corpus()]
     cs += [VCase(f"design-simcomb[{n}]", c_design, n, False, timeout=900) for n, _ in _corpus()]     # same programs through _generate_combinatorial_logic_sim
-    cs.append(VCase("case-sim", c_case_sim))
+    cs.append(VCase("case-sim", c_case_sim)); cs.append(VCase("case-signed-selector", c_case_signed_selector)); cs.append(VCase("multiclock-reference", c_multiclock_reference))
     import os
     seed = int(os.environ.get("VERIF_SEED", "0")); n = 48 if tier == "quick" else 480
     cs += [VCase(f"generated(seed={seed},{f}..{f + 11})", c_random_programs, seed, f, 12, timeout=900) for f in range(0, n, 12)]
